@@ -453,7 +453,10 @@ def keys_case(ck, tmp, stream, combo, via="lib"):
     import suit_generator.cmd_keys as m
     ktype, enc, pf, pubf, encr = combo
     d = tempfile.mkdtemp(prefix="keys-", dir=tmp)
-    prefix = os.path.join(d, "k")
+    # the output prefix is a name like any other: every second one has dots in it (a rotated key, a board name)
+    import zlib
+    stem = "k" if zlib.crc32(repr(combo).encode()) % 2 else "k.nrf54h20.v2"
+    prefix = os.path.join(d, stem)
     want = keys_expected(ktype, enc, pf, pubf)
     if want:
         # a regeneration: both output paths already hold older, LONGER key files
@@ -477,7 +480,7 @@ def keys_case(ck, tmp, stream, combo, via="lib"):
             bad = f"an unsupported format combination raised {res} instead of GeneratorError"
         elif via == "cli" and res != "exit 1":
             bad = f"an unsupported format combination ended with {res} instead of the error exit status 1"
-        elif any(f.startswith("k_") for f in os.listdir(d)):
+        elif any(f.startswith("k") for f in os.listdir(d)):
             bad = "key files were written although the combination was refused"
     shutil.rmtree(d, ignore_errors=True)
     if bad:
